@@ -66,6 +66,18 @@ def cli_pairs(ctx, n):
   description: Enumerate the bootstrap credentials that new machines may present when they ask to join the control plane
   keywords: [cluster]
   pipeline: false
+- command: sort names.txt | uniq -c
+  description: sort lines and count duplicate lines
+  keywords: [sort, count, lines]
+  pipeline: true
+- command: cat access.log | sort | head -n 20
+  description: sort a log and show the first lines
+  keywords: [sort, log]
+  pipeline: true
+- command: grep error app.log | wc -l
+  description: count matching lines
+  keywords: [count, lines, grep]
+  pipeline: true
 - command: helm upgrade release chart
   description: Roll a packaged application forward on a kubernetes cluster reached through the kubeconfig context, as skaffold would, keeping history
   keywords: [cluster]
@@ -118,6 +130,24 @@ def cli_pairs(ctx, n):
                 bad += 1
                 ctx.hit("cli-case-or-whitespace-changes-output", "wtf %r -> %s but %r -> %s" % (q, a, v, b),
                         dict(kind="impl-counterexample", cli=True, query=q, variant=v, answer=a, variant_answer=b, database=open(db).read()))
+        # the same for `wtf pipeline` (the legacy keyword scorer): queries that repeat a word, re-spelled word by word
+        def run_pipeline(q):
+            p = subprocess.run([wtf, "pipeline", "--database", db, "--limit", "5", q], env=env, cwd=tmp, stdout=subprocess.PIPE, stderr=subprocess.PIPE, text=True, timeout=60)
+            return [l.strip() for l in p.stdout.split("\n") if re.match(r"^\d+\. ", l.strip())]
+        pbase = ["sort sort lines", "count count lines sort", "sort lines", "count lines", "lines lines lines count", "log sort log"]
+        for k in range(max(6, n // 4)):
+            q = rnd.choice(pbase)
+            v = " ".join(rnd.choice([w, w.upper(), w.capitalize(), w[:-1] + w[-1].upper()]) for w in q.split(" "))
+            v = rnd.choice(["", " "]) + v.replace(" ", rnd.choice([" ", "  "])) + rnd.choice(["", " "])
+            a, b = run_pipeline(q), run_pipeline(v)
+            ctx.cov["evaluations"] += 1
+            if a:
+                ctx.distinct.add("cli-pipeline:" + q + "|" + v)
+                ctx.add_distribution({"cli.pipeline-answered": 1})
+            if a != b:
+                bad += 1
+                ctx.hit("cli-case-or-whitespace-changes-output", "wtf pipeline %r -> %s but %r -> %s" % (q, a, v, b),
+                        dict(kind="impl-counterexample", cli=True, subcommand="pipeline", query=q, variant=v, answer=a, variant_answer=b, database=open(db).read()))
         ctx.oblige("cli:paired-case-whitespace-runs", "correspondence", bad == 0, "%d pairs, %d differ" % (n, bad))
         ctx.cov["samples"].append(dict(cli_query=base[0], note="paired with random case / whitespace variants"))
     finally:
